@@ -1347,10 +1347,20 @@ impl Compiler {
                 if register != value_register {
                     self.push_op(Copy, &[register, value_register]);
                 }
+                // The temporary value isn't passed on to the caller, so it's released here
+                if value_result.is_temporary {
+                    self.pop_register()?;
+                }
                 CompileNodeOutput::with_assigned(register)
             }
             ResultRegister::Any => value_result,
-            ResultRegister::None => CompileNodeOutput::none(),
+            ResultRegister::None => {
+                // The temporary value isn't passed on to the caller, so it's released here
+                if value_result.is_temporary {
+                    self.pop_register()?;
+                }
+                CompileNodeOutput::none()
+            }
         };
 
         self.pop_span();
